@@ -214,6 +214,10 @@ pub fn families(prop: &str, tier: Tier) -> Vec<Family> {
             let lists = pattern_lists();
             f.push(Family { stateless_depth: 0, name: "mode-graphs-2 (subset)".into(), cfgs: mode_graphs(2, &lists, if q { 7 } else { 1 }), inputs: inputs(&['a', 'b', 'x'], if q { 3 } else { 4 }), ops: ops.clone(), describe: "2 modes x 6 pattern lists x every 7th (thorough: every) transition table".into() });
             f.push(Family { stateless_depth: 0, name: "gaps".into(), cfgs: gap_cfgs(), inputs: inputs(&['a', 'b', 'x', '\n'], if q { 4 } else { 5 }), ops: ops.clone(), describe: "pattern sets with characters nothing matches".into() });
+            let mut ops_r = ops.clone();
+            ops_r.offsets = Offsets::All;
+            ops_r.peeks = vec![1, 2, usize::MAX];
+            f.push(Family { stateless_depth: 0, name: "mode-graphs-2 with resets".into(), cfgs: mode_graphs(2, &lists[1..5], if q { 23 } else { 5 }), inputs: inputs(&['a', 'b', 'x'], 3), ops: ops_r, describe: "2 modes x 4 pattern lists x every 23rd (thorough: 5th) transition table; peek_n(1|2||x|+1) interleaved with set_offset(every boundary)".into() });
             let mut mb = newline_cfgs();
             mb.push(Cfg::single(vec![CPat::new("[aé]+", 0), CPat::new("b", 1), CPat::new("€", 2)]));
             mb.push(Cfg { modes: vec![mode("A", &[("é", 0), ("a", 1)], &[(0, 1)]), mode("B", &[("é+", 0), ("a", 1), ("b", 2)], &[(1, 0)])] });
